@@ -62,4 +62,15 @@ def judge (inp obs : List String) : Verdict :=
   | _, _, _, _, _, _, _ =>
     if (obs.headD "").startsWith "panic" then { corr := "differ:impl-panic", spec := "unsat:C05.no_panic:pool-open" } else badInput "leasedb"
 
+/-- `crashkill ms=<n> n=<n> seed=<n> => open=<ok|err> acks=<n> finished=<0|1> missing=<-|ip~client,…> rows=<…>`:
+    a child process killed with SIGKILL during a stream of allocations; the database must open again and hold, for
+    every address, the last binding the child had acknowledged (`C18_acknowledged_in_store` says so of the model; here the
+    real process, the real file and the real signal are observed) -/
+def judgeCrash (_inp obs : List String) : Verdict :=
+  match kv obs "open", kv obs "missing" with
+  | some "ok", some "-" => { corr := "agree", spec := "sat" }
+  | some "ok", some _ => { corr := "agree", spec := "unsat:C18.kill_preserves_acknowledged:acknowledged-lease-not-on-record" }
+  | some _, some _ => { corr := "agree", spec := "unsat:C18.reopen_after_kill:database-does-not-open" }
+  | _, _ => if (obs.headD "").startsWith "panic" then { corr := "differ:impl-panic", spec := "unsat:C05.no_panic:pool-open" } else badInput "crashkill"
+
 end Erbium.Judge.C18
